@@ -1,15 +1,17 @@
 SPECIFICATION Spec
 CONSTANTS
   Callers = {1, 2}
-  Chars = {10, 11}
+  Chars = {10}
   NInfo = 1
   Addrs = {"a1", "a2"}
   InitAddr = "a1"
   InitWanted = {}
   MaxCtx = 2
-  MaxReq = 7
+  MaxReq = 6
   MaxBg = 1
   MaxEv = 1
+  CloseEnds = FALSE
+  Deviations = {}
   Obs = FALSE
 INVARIANT TypeOK
 INVARIANT SingleConnect
@@ -23,7 +25,10 @@ INVARIANT OpOnReadySession
 INVARIANT Subscribed
 INVARIANT ResourceIsCurrent
 INVARIANT AfterCloseNoContext
+INVARIANT OnlyLibraryErrors
+INVARIANT BgNeverFails
 PROPERTY DeadNeverUsed
+PROPERTY OpStartsReady
 PROPERTY FreshSessions
 PROPERTY EventsInOrder
 CHECK_DEADLOCK FALSE
